@@ -154,9 +154,21 @@ def path_source_cases(ctx, replay=None):
     return {"violations": viol, "disagreements": [], "coverage": {"path_source_cases": done}}
 
 
+def phys_structure(ctx, res):
+    """The end-to-end theorems of this property stand on the model of the physical plan (`physFinal`, `physEngine`): compare
+    it, node by node and keyed edge by keyed edge, with the graphs the real dry run and the real run build (the structural
+    half of C09's check; a deviation is a broken correspondence here too, and starts the search for a failing history)."""
+    from harness.props import c09
+    r = c09.explore_phys(ctx, 40 if ctx.tier == "quick" else 400, steps=3, structural=True, behavioural=False, salt=17)
+    res["disagreements"] += r["disagreements"]
+    res["coverage"]["phys_graph_comparisons"] = r["coverage"].get("comparisons", 0)
+
+
 def explore(ctx):
     n = 110 if ctx.tier == "quick" else 4000
     res = ce.explore_cache(ctx, PROPS, n, steps=6)
+    from harness.props.c08 import phys_structure
+    phys_structure(ctx, res)
     if not res["violations"]:
         f = files_idempotence(ctx)
         res["violations"] += f["violations"]
